@@ -358,3 +358,279 @@ func ruleC01Recursion(p *Prog, a *Anchors, r *Report) {
 	}
 	_ = sort.Strings
 }
+
+// R-C01-SUPER (re-entry from a template). Besides macros (R-C01-MACRO) a template can call back into the engine through
+// the methods of values the ENGINE puts into the context ({{ block.Super }}): an exported method with an
+// ExecutionContext parameter that executes nodes. Definitions that use it can render each other in a cycle that no
+// compile-time check sees, so every such method has to count a level — the context it executes in carries a counter one
+// higher than the calling context's — and execution has to refuse beyond a constant bound of that counter.
+func ruleC01Reentry(p *Prog, a *Anchors, r *Report) {
+	r.Begin("R-C01-SUPER", "a method the engine exposes to templates through the context (block.Super) and that executes nodes does so in a context whose nesting counter is one more than the calling context's, and the execution of nodes refuses beyond a constant bound of that counter", 1)
+	// types the engine stores into a context map
+	exposed := map[*types.Named]bool{}
+	for _, f := range p.inPkgFuncsSorted(p.allFuncSet()) {
+		for _, b := range f.Blocks {
+			for _, in := range b.Instrs {
+				mu, ok := in.(*ssa.MapUpdate)
+				if !ok {
+					continue
+				}
+				mi, ok := mu.Value.(*ssa.MakeInterface)
+				if !ok {
+					continue
+				}
+				T := mi.X.Type()
+				if pt, isP := T.(*types.Pointer); isP {
+					T = pt.Elem()
+				}
+				if n, isN := T.(*types.Named); isN && n.Obj().Pkg() == a.ExecCtx.Obj().Pkg() {
+					exposed[n] = true
+				}
+			}
+		}
+	}
+	ctxPtr := types.NewPointer(a.ExecCtx)
+	execReach := a.ExecReach()
+	n := 0
+	for T := range exposed {
+		_ = T
+	}
+	var names []*types.Named
+	for T := range exposed {
+		names = append(names, T)
+	}
+	sort.Slice(names, func(i, j int) bool { return names[i].Obj().Name() < names[j].Obj().Name() })
+	for _, T := range names {
+		for _, m := range p.Methods(T) {
+			if m.Object() == nil || !m.Object().Exported() || m.Blocks == nil {
+				continue
+			}
+			ctxParam := paramOfType(m, ctxPtr)
+			if ctxParam == nil {
+				continue
+			}
+			// executes nodes: a call (in the method) that hands on an ExecutionContext other than its own
+			var nested []ssa.Value
+			var site ssa.Instruction
+			for _, b := range m.Blocks {
+				for _, in := range b.Instrs {
+					ci, ok := in.(ssa.CallInstruction)
+					if !ok {
+						continue
+					}
+					name := ""
+					if ci.Common().IsInvoke() {
+						name = ci.Common().Method.Name()
+					} else if c := ci.Common().StaticCallee(); c != nil {
+						name = c.Name()
+					}
+					if !strings.HasPrefix(name, "Execute") && !strings.HasPrefix(name, "execute") {
+						continue
+					}
+					for _, arg := range callArgs(ci.Common()) {
+						if types.Identical(arg.Type(), ctxPtr) {
+							nested = append(nested, arg)
+							site = in
+						}
+					}
+				}
+			}
+			if len(nested) == 0 {
+				continue
+			}
+			n++
+			key := p.FuncName(m) + ":counts-a-level"
+			// the counter: an int field of the nested context stored as <calling context>.field + k
+			counted := -1
+			for _, nv := range nested {
+				if nv == ssa.Value(ctxParam) {
+					continue
+				}
+				for _, b := range m.Blocks {
+					for _, in := range b.Instrs {
+						st, ok := in.(*ssa.Store)
+						if !ok {
+							continue
+						}
+						fa, ok := st.Addr.(*ssa.FieldAddr)
+						if !ok || p.VN(fa.X) != p.VN(nv) {
+							continue
+						}
+						add, ok := st.Val.(*ssa.BinOp)
+						if !ok || add.Op != token.ADD {
+							continue
+						}
+						if k, isK := constInt(add.Y); !isK || k <= 0 {
+							continue
+						}
+						if u, ok := add.X.(*ssa.UnOp); ok && u.Op == token.MUL {
+							if fb, ok := u.X.(*ssa.FieldAddr); ok && fb.Field == fa.Field && unspillParam(fb.X) == ssa.Value(ctxParam) {
+								counted = fa.Field
+							}
+						}
+					}
+				}
+			}
+			if counted < 0 {
+				same := false
+				for _, nv := range nested {
+					if nv == ssa.Value(ctxParam) {
+						same = true
+					}
+				}
+				if same {
+					r.Assume(key, p.InstrPos(site), "the method executes in the calling context itself; the rule cannot see a counter")
+				} else {
+					r.Bad(key, p.InstrPos(site), "%s executes nodes in a new context without counting a level of nesting (no `<new>.counter = <calling>.counter + k`): definitions that reach each other through it ({%% block a %%}…{{ block.Super }}… in a cycle with another block) recurse until the stack is exhausted, which ends the process", p.FuncName(m))
+				}
+				continue
+			}
+			r.OK(key, p.InstrPos(site), "the context of the nested execution carries %s one higher than the calling context", fieldName(ctxPtr, counted))
+			// … and that counter is bounded where nodes are executed
+			key = p.FuncName(m) + ":bounded"
+			bounded := ""
+			for _, f := range p.inPkgFuncsSorted(execReach) {
+				if bounded != "" || errorResultIndex(f) < 0 {
+					continue
+				}
+				for _, b := range f.Blocks {
+					iff, ok := b.Instrs[len(b.Instrs)-1].(*ssa.If)
+					if !ok {
+						continue
+					}
+					c, pol := normCond(iff.Cond, true)
+					bo, ok := c.(*ssa.BinOp)
+					if !ok || (bo.Op != token.GTR && bo.Op != token.GEQ) {
+						continue
+					}
+					if _, isK := constInt(bo.Y); !isK {
+						continue
+					}
+					u, ok := bo.X.(*ssa.UnOp)
+					if !ok || u.Op != token.MUL {
+						continue
+					}
+					fa, ok := u.X.(*ssa.FieldAddr)
+					if !ok || fa.Field != counted || !types.Identical(fa.X.Type(), ctxPtr) {
+						continue
+					}
+					// … in a node's Execute (a function every cycle through nodes passes), refusing with an error
+					if !strings.HasPrefix(f.Name(), "Execute") {
+						continue
+					}
+					idx := 0
+					if !pol {
+						idx = 1
+					}
+					if errorReturnsOnly(f, b.Succs[idx]) {
+						bounded = p.FuncName(f)
+					}
+				}
+			}
+			if bounded != "" {
+				r.OK(key, p.Pos(m.Pos()), "%s refuses beyond a constant bound of that counter", bounded)
+			} else {
+				r.Bad(key, p.Pos(m.Pos()), "no Execute method compares ExecutionContext.%s with a constant and refuses with an error: the level %s counts is never checked", fieldName(ctxPtr, counted), p.FuncName(m))
+			}
+		}
+	}
+	if n == 0 {
+		r.Trivial("none", "-", "no method of a type the engine stores into a context executes nodes")
+	}
+}
+
+// defersRecover: f registers, in its entry block, a deferred closure that calls recover(): a panic raised while f runs
+// does not leave f.
+func defersRecover(f *ssa.Function) bool {
+	if f == nil || len(f.Blocks) == 0 {
+		return false
+	}
+	for _, in := range f.Blocks[0].Instrs {
+		d, ok := in.(*ssa.Defer)
+		if !ok {
+			continue
+		}
+		var cl *ssa.Function
+		switch v := d.Call.Value.(type) {
+		case *ssa.MakeClosure:
+			cl, _ = v.Fn.(*ssa.Function)
+		case *ssa.Function:
+			cl = v
+		}
+		if cl == nil {
+			continue
+		}
+		for _, cb := range cl.Blocks {
+			for _, ci := range cb.Instrs {
+				if c, isC := ci.(*ssa.Call); isC {
+					if bi, isB := c.Common().Value.(*ssa.Builtin); isB && bi.Name() == "recover" {
+						return true
+					}
+				}
+			}
+		}
+	}
+	return false
+}
+
+// R-C01-USERMETHOD. A value of the context can be a fmt.Stringer or an error whose method panics (a struct embedding
+// a nil *time.Time IS a Stringer; its promoted method dereferences the nil). Where the engine calls such a method
+// directly — an interface method call on a value it type-asserted out of caller data, not through reflect Call, which
+// R-C08-CALL covers — the call has to run under a deferred recover, or {{ x }} ends the rendering with a panic.
+func ruleC01UserMethods(p *Prog, a *Anchors, r *Report) {
+	r.Begin("R-C01-USERMETHOD", "every direct call of a method of caller data (String() of a value asserted to fmt.Stringer, Error() of one asserted to error) reachable from execution stands in a function that defers a recover", 1)
+	reach := a.ExecReach()
+	count := map[string]int{}
+	n := 0
+	for _, f := range p.inPkgFuncsSorted(p.allFuncSet()) {
+		if !reach[f] && !reach[topLevel(f)] {
+			continue
+		}
+		for _, b := range f.Blocks {
+			for _, in := range b.Instrs {
+				c, ok := in.(*ssa.Call)
+				if !ok || !c.Common().IsInvoke() {
+					continue
+				}
+				m := c.Common().Method
+				if m.Name() != "String" && m.Name() != "Error" {
+					continue
+				}
+				// the receiver was asserted out of an interface{} (caller data), not an engine type
+				recv := c.Common().Value
+				if ex, isEx := recv.(*ssa.Extract); isEx {
+					recv = ex.Tuple
+				}
+				switch rv := recv.(type) {
+				case *ssa.TypeAssert:
+					if it, isI := rv.X.Type().Underlying().(*types.Interface); !isI || it.NumMethods() != 0 {
+						continue
+					}
+				case *ssa.Parameter:
+					// a helper that is handed the asserted value: String() on a parameter of an interface type
+					// declared outside the package (fmt.Stringer)
+					nt, isN := rv.Type().(*types.Named)
+					if !isN || m.Name() != "String" || nt.Obj().Pkg() == nil || nt.Obj().Pkg() == a.ExecCtx.Obj().Pkg() {
+						continue
+					}
+				default:
+					continue
+				}
+				n++
+				key := p.FuncName(f) + ":" + m.Name() + "()"
+				count[key]++
+				if count[key] > 1 {
+					key += "#" + itoa(int64(count[key]))
+				}
+				if defersRecover(f) {
+					r.OK(key, p.InstrPos(in), "called under a deferred recover")
+				} else {
+					r.Bad(key, p.InstrPos(in), "%s() of a value taken from caller data is called without a deferred recover in %s: a method that panics (a struct embedding a nil *time.Time is a Stringer whose String dereferences the nil) ends the rendering with a panic instead of an error or an empty text", m.Name(), p.FuncName(f))
+				}
+			}
+		}
+	}
+	if n == 0 {
+		r.Trivial("none", "-", "no direct String()/Error() call on asserted caller data reachable from execution")
+	}
+}
